@@ -150,7 +150,7 @@ def intrinsic_outcome(c: dict, reasons: List[str]):
         return (SHUTDOWN if reason in c["shutdownOn"] else FAILED), launches
 
 
-def rule_states(W, script) -> Dict[str, str]:
+def rule_states(W, script, force=None) -> Dict[str, str]:
     nodes, preds = wfgen.expand(W)
     intrinsic = {}
     for ref, nd in nodes.items():
@@ -164,6 +164,9 @@ def rule_states(W, script) -> Dict[str, str]:
     for ref in order:
         nd = nodes[ref]
         ps = preds[ref]
+        if force and ref in force:
+            state[ref] = force[ref]
+            continue
         if any(state[p] == FAILED for p in ps):
             state[ref] = SHUTDOWN
             continue
